@@ -15,10 +15,10 @@ BOUNDS = {
               "normal_form_text": "<= 4 characters", "dates": "every valid calendar date/time 1000-01-01..9999-12-31 at second resolution, UTC-aware (12 months) and naive (2 months quick / 12 thorough)"},
     "thorough": {"values": "<= 5 characters", "normal_form_text": "<= 5 characters"},
 }
-STUBS = ["HTTP dates: the value is a datetime subclass whose calendar fields are solver ints and whose timetuple() is computed with the proleptic Gregorian weekday formula; datetime.datetime(...) on solver ints is a contract stub (range checks incl. month lengths) returning an object that carries the fields; email.utils.format_datetime / parsedate_to_datetime / _parsedate_tz are interpreted from the stdlib source. Each path is replayed natively with real datetime objects"]
+STUBS = ["base64.b64encode / b64decode on solver bytes: exact bit-level model (harness/b64model.py), validated natively on every path", "HTTP dates: the value is a datetime subclass whose calendar fields are solver ints and whose timetuple() is computed with the proleptic Gregorian weekday formula; datetime.datetime(...) on solver ints is a contract stub (range checks incl. month lengths) returning an object that carries the fields; email.utils.format_datetime / parsedate_to_datetime / _parsedate_tz are interpreted from the stdlib source. Each path is replayed natively with real datetime objects"]
 ASSUMPTIONS = ["values exclude CR/LF; option-header values additionally exclude the literal %22 (documented to decode to a quote)",
                "ETags are non-empty and contain no double quote", "0 <= start < stop for ranges, as the property states"]
-OUTSIDE = ["datetimes with a non-UTC offset (datetime.astimezone: C), If-Range dates", "Basic credentials (base64 + UTF-8)", "code points above U+00FF", "longer values"]
+OUTSIDE = ["datetimes with a non-UTC offset (datetime.astimezone: C), If-Range dates", "code points above U+00FF", "longer values"]
 
 NOCRLF = [10, 13]
 
@@ -293,6 +293,25 @@ import datetime as _dtmod
 from harness.dtmodel import SymDatetime, valid_day
 
 
+def body_basic_auth(I, X, nu=1, npw=2):
+    """Basic credentials: Authorization('basic', user, password).to_header() parsed back by
+    Authorization.from_header gives the same user and password (UTF-8, base64 exact model);
+    the user holds no ':', the password may"""
+    from werkzeug.datastructures import Authorization
+
+    user = X.str("user", nu, minlen=nu, maxcp=0x7FF)
+    pw = X.str("pw", npw, minlen=npw, maxcp=0x7FF)
+    X.assume(pnone_in(user, [0x3A]))
+    a = I.call(Authorization, ("basic", {"username": user, "password": pw}))
+    hdr = I.call(a.to_header, ())
+    back = I.call(Authorization.from_header, (hdr,))
+    if back is None:
+        return False, {"header": hdr, "back": None}
+    ok = pand(back.type == "basic", peq(I.getattr(back, "username"), user), peq(I.getattr(back, "password"), pw),
+              pall_in(hdr, [(0x20, 0x7E)]))
+    return ok, {"header": hdr}
+
+
 def body_http_date(I, X, aware=True, month=1):
     """http_date -> parse_date returns the datetime (second resolution, UTC; naive input is
     taken as UTC), for every valid calendar date in the years 1000..9999"""
@@ -320,13 +339,19 @@ def body_http_date(I, X, aware=True, month=1):
 
 
 def make_stubs():
+    from harness import b64model
     from harness.c07 import make_stubs as m
 
-    return m()
+    st = m()
+    st.update(b64model.stubs())   # exact base64 (C07 uses a contract stub: it only needs 'some bytes or an error')
+    return st
 
 
 def obligations(tier, seed):
     out = []
+    for nu, npw in ([(1, 1), (1, 2), (2, 1), (0, 2)] if tier == "quick" else [(a, b) for a in range(0, 4) for b in range(0, 4)]):
+        out.append({"name": f"basic_auth[user={nu},password={npw}]", "body": "body_basic_auth", "params": {"nu": nu, "npw": npw},
+                    "opts": {"budget_s": 900, "ctx": {"max_cp": 0x7FF}}})
     for aware in (True, False):
         for month in (range(1, 13) if aware or tier != "quick" else (2, 12)):
             out.append({"name": f"http_date[aware={aware},month={month}]", "body": "body_http_date", "params": {"aware": aware, "month": month},
